@@ -15,14 +15,30 @@
     where a class is declared; [pnorm] the property's identifications (an empty unwrapped
     sequence is None), which never change a runtime class; [project] the declared class's
     projection of a value. *)
-From Coq Require Import ZArith List Bool.
-From SpyneV Require Import Base.Prelude Wire.Universe Wire.Xml C01.Leaf C16.Model C16.Leaf C16.Main Gen.C16Shape.
+From Coq Require Import ZArith List Bool Lia.
+From SpyneV Require Import Base.Prelude Wire.Universe Wire.Xml C01.Leaf C16.Model C16.Leaf C16.DeriveProofs C16.Main Gen.C16Shape.
 Import ListNotations.
 Open Scope Z_scope.
 
 (** the source has the shape the proofs are about *)
 Theorem C16_shape_src : shape_src = shape_ok.
 Proof. reflexivity. Qed.
+
+(** The parent links of the universes below are Spyne's __extends__, which the metaclass derives
+    from the Python class statements ([derive]).  It keeps the Python base of every class
+    provided no class is both without a base and without members ... *)
+Theorem C16_extends_partial : forall P, bases_ok P ->
+  forall i p, nth_error P i = Some p ->
+    exists cl, get_cls (derive shape_src P) i = Some cl /\ c_parent cl = py_base p /\ c_own cl = py_own p.
+Proof. exact extends_partial. Qed.
+
+(** ... and not otherwise (known finding C16|emptyroot): "for every class statement, __extends__
+    is the Python base" is false; a subclass of a member-less root class does not extend it, is
+    not among its registered subclasses and is not substitutable for it in any protocol. *)
+Theorem C16_extends_refuted :
+  exists P i p b, nth_error P i = Some p /\ py_base p = Some b /\ (b < i)%nat
+                  /\ exists cl, get_cls (derive shape_src P) i = Some cl /\ c_parent cl <> Some b.
+Proof. exact extends_refuted. Qed.
 
 (** A subclass carries its ancestors' members followed by its own: the flattened type info
     (what the dict protocols iterate) and the member list of the XML serialiser both are the
@@ -221,6 +237,16 @@ Definition ex_box : val :=
                VList [VObj 2%nat [VLeaf (LInt 5); VNone; VNone]; VObj 1%nat [VLeaf (LInt 6)]] ].
 Definition ex_msg : val := VObj 5%nat [ex_box].
 Definition ex_cfg (poly : bool) : pcfg := mkpcfg false ua poly true ex_pm ex_reg.
+
+Example C16_ex_extends :
+  bases_ok [mkpy None ub [65] [fld [97] (TPrim PInt) 0 (Some 1)]; mkpy (Some 0%nat) ub [66] []; mkpy (Some 1%nat) ub [67] [fld [99] (TPrim PInt) 0 (Some 1)]]
+  /\ map c_parent (derive shape_src [mkpy None ub [65] [fld [97] (TPrim PInt) 0 (Some 1)]; mkpy (Some 0%nat) ub [66] [];
+                                      mkpy (Some 1%nat) ub [67] [fld [99] (TPrim PInt) 0 (Some 1)]])
+     = [None; Some 0%nat; Some 1%nat].
+Proof.
+  split; [|vm_compute; reflexivity].
+  intros [|[|[|i]]] p H; cbn in H; inversion H; subst; cbn; try lia; try discriminate. destruct i; discriminate.
+Qed.
 
 Example C16_ex_flat :
   wf_universe ex_U = true
